@@ -320,3 +320,10 @@ M("C18", "text-uses-root-table", NODES, "self.table = self.resolver.current_scop
 M("C18", "table-loaded-into-root", NODES, "resolver.current_scope.table = Table(self.table_path)", "resolver.scopes[0].table = Table(self.table_path)", "C18.R2")
 M("C18", "pair-hex-one-at-a-time", SCR, "zip(*[iter(value)] * 2, strict=True)", "zip(*[iter(value)] * 1, strict=True)", "C18.R3")
 M("C18", "to-text-ascending", SCR, "            for i in range(min(len(remainder), self.max_bytes_length), 0, -1):", "            for i in range(1, min(len(remainder), self.max_bytes_length) + 1):", "C18.R1")
+
+# ------------------------------------------------------------------ shared binding-agreement rule (RB)
+M("C11", "header-args-swapped", WR, "self.write_block_header(block_slice, block_address)", "self.write_block_header(block_address, block_slice)", "C11.R")
+M("C10", "for-ast-fields-swapped", ASTN, "        self.min_value = min_value\n        self.max_value = max_value", "        self.min_value = max_value\n        self.max_value = min_value", "C10.R")
+M("C03", "write-block-args-swapped", PROG, "        if len(current_block) > 0:\n            writer.write_block(current_block, current_block_addr)\n\n    def assemble_string", "        if len(current_block) > 0:\n            writer.write_block(current_block_addr, current_block)\n\n    def assemble_string", "C03.R")
+M("C09", "macro-ast-fields-swapped", ASTN, "        self.name = name\n        self.args = args\n        self.block = block", "        self.name = name\n        self.args = block\n        self.block = args", "C09.RB")
+M("C13", "ips-ast-fields-swapped", ASTN, "        self.file_path = file_path\n        self.expression = expression", "        self.file_path = expression\n        self.expression = file_path", "C13.R")
